@@ -24,6 +24,10 @@ CHECKS = {
    text="check_compiler_version executed symbolically from MIR for every version triple (accepted iff major equal and (minor,patch) <= supported, otherwise an error-level report; no pragma => one warning), plus the C03 main/writer harness specialised to error-level reports: every error offered to the writer is displayed at every --level unless allowed, and then the exit status is non-zero; 'No issues found.' only when nothing was displayed.",
    note=TB + "Partial: that the parser/desugarer/lifter actually produce a report for each failure class is outside this check (needs the pipeline); file-system errors are represented by a location-less error report offered to the writer.",
    ref="DESIGN.md §3 C02"),
+ 'C18': dict(
+   text="Partial (the tuple half): remove_tuples_from_statement / remove_tuple_from_expression / separate_tuple_for_log_call and the ContainsExpression traversals executed from MIR on 18 statement slots x 13 expression shapes x {tuple, anonymous component} (468 combinations; the index is a solver variable): the remover returns Err or a statement in which an independent walker finds no tuple anywhere, and contains_tuple / contains_anonymous_component answer true iff the walker finds one (so functions containing them are rejected wherever they occur). Counterexamples are replayed with the real binary.",
+   note=TB + "Precondition of the remover respected: anonymous components are expanded before it runs. Outside: anonymous-component expansion (needs template signatures) and the equivalence of the expansion with the hand-written form; deeper nestings.",
+   ref="DESIGN.md §3 C18"),
  'C19': dict(
    text="Partial (FileStack): FileStack::{new, add_libraries, add_files, add_include, include_library, take_next, is_user_input} executed from MIR over an abstract file system (fs::canonicalize = arbitrary symbolic partial map from spellings to 3 canonical files, identity on canonical paths): from an arbitrary state whose stack holds canonical paths, take_next yields only unvisited paths, marks exactly the yielded one and shrinks the stack (=> each file at most once, cycles and diamonds terminate); add_include preserves the invariant (pushes canonical paths only) and a failed include is located at the include statement; every .circom input is pushed in canonical form or reported; is_user_input iff canonical path of a named input.",
    note=TB + "The file-system stub is the assumption. Outside: real path spelling and symlinks, directories as inputs, that parse_files uses the stack as intended, findings for included definitions (C03 filter clause).",
@@ -83,7 +87,6 @@ CHECKS = {
 }
 
 NA_REASON = {
- 'C18': "not built: deciding it needs template signatures (TemplateData with declaration orders), FileLibrary and HashMap<String,TemplateData> values for every anonymous-component shape under the executor plus an equivalence check against hand-written expansions; only the contains_* traversals are within easy reach and they cover half of the statement. No other technique substituted (DESIGN.md §4)",
  'C09': "quantifies over executions of analysed programs with a perturbed assignment: needs the taint/side-effect/constraint passes (several thousand lines of HashMap/HashSet/trait-object code) plus a reference interpreter under the symbolic executor; beyond the engine's reach, and Kani cannot run hash-map code on this code base (measured, DESIGN.md §1)",
 }
 
